@@ -7,6 +7,8 @@ its constructor (spec/judgements.py, table 2.1) on every valuation of its atoms.
 """
 from __future__ import annotations
 
+import ast
+
 from ..core import decide, pypattern
 from ..core.pyfacts import PyRepo
 from ..core.rustfacts import Rust, arms_of, judgement_df
@@ -59,6 +61,13 @@ def python_half(ctx, py: PyRepo):
         ctx.require(c.name in S.VARIANTS or c.name == 'Instantiate',
                     f'Pattern subclass {c.name} is unknown to the soundness table')
         if 'evar_is_free' not in c.methods:
+            inherited = py.find_method(c, 'evar_is_free')
+            stub = inherited is None or all(isinstance(st, (ast.Raise, ast.Pass)) or (isinstance(st, ast.Expr) and isinstance(st.value, ast.Constant))
+                                            for st in inherited[1].body)
+            # implemented once for all constructors in a form that cannot be split per constructor (e.g. an explicit work list):
+            # its soundness is a loop invariant, which this analysis does not establish - undecided, not a violation
+            ctx.require(stub, f'{c.name}.evar_is_free is inherited from {inherited[0].name if inherited else "?"}, which implements the judgement '
+                              f'for all constructors in one function that cannot be specialised per constructor; the per-arm soundness argument does not apply')
             ctx.ob('sound-arm', f'python/evar_is_free/{c.name}', False, 'class does not define evar_is_free',
                    py.where(c.module, c.node))
             continue
